@@ -336,9 +336,6 @@ func sanitizationContextForAttrVal(element, attr, linkRel string) (sanitizationC
 //
 //	<a href="{{ "javascript" }}:alert(1)">
 func validateTextAfterAction(c context, text string) error {
-	if !c.attr.dynamicStart {
-		return nil
-	}
 	elems, attrs := c.element.names, c.attr.names
 	if len(elems) == 0 {
 		elems = []string{c.element.name}
@@ -349,6 +346,13 @@ func validateTextAfterAction(c context, text string) error {
 	for _, elem := range elems {
 		for _, attr := range attrs {
 			sc, err := sanitizationContextForAttrVal(elem, attr, c.linkRel)
+			if err == nil && sc == sanitizationContextTrustedResourceURL && dotsAroundAction(c.attr.value, text) {
+				// An empty value would join the dots into a ".." segment, e.g. `/a/.{{.X}}.`.
+				return fmt.Errorf("%q after an action in the %q attribute value of this %q element: the action is between the dots of a path segment", text, attr, elem)
+			}
+			if !c.attr.dynamicStart {
+				continue
+			}
 			if err == nil && (sc == sanitizationContextURLSet || sc.isEnum()) {
 				return fmt.Errorf("%q after an action in the %q attribute value of this %q element: partial substitutions are disallowed", text, attr, elem)
 			}
@@ -362,6 +366,18 @@ func validateTextAfterAction(c context, text string) error {
 		}
 	}
 	return nil
+}
+
+// dotsAroundAction reports whether the last path segment of the static text before an action
+// consists of dots only, in unencoded or percent-encoded form, and the text after the action
+// goes on with a dot.
+func dotsAroundAction(before, after string) bool {
+	before, after = strings.ToLower(html.UnescapeString(before)), strings.ToLower(html.UnescapeString(after))
+	if !strings.HasPrefix(after, ".") && !strings.HasPrefix(after, "%2e") {
+		return false
+	}
+	segment := before[strings.LastIndexAny(before, "/?#")+1:]
+	return segment != "" && strings.Replace(strings.Replace(segment, "%2e", "", -1), ".", "", -1) == ""
 }
 
 // unknownLinkRel is the linkRel of a link element whose rel attribute value contains an action.
